@@ -16,3 +16,8 @@ add('C14', 'model_checking',
     'Symbolic model checking of every real Apbp/DataChannel method (LLVM IR of src/apbp.cpp, including the lock_guard bodies) from an arbitrary mailbox/semaphore state satisfying the invariant signal == ((semaphore & ~mask) != 0): post-state, return value and the exact set of handler events are compared by SMT with the apbp.md handshake; the invariant is re-proved after every operation, which extends the result to all operation sequences by induction.',
     'Assumes handlers installed and channel index in 0..2 (enumerated); pthread mutex calls are stubs (thread interleavings are C19). The DSP-side status words and host facade are thin std::bind closures over these methods (covered structurally by C12 when built). Trusted: clang IR generation, llsym (validated per run against native apbp.cpp), z3/cvc5.',
     'symbolic execution of LLVM IR + SMT: one-step specification with inductive invariant', 'DESIGN.md section 2 C14')
+
+add('C16', 'model_checking',
+    'Symbolic model checking of the real Btdmp code including the real std::queue/std::deque template bodies: for every queue fill 0..16 (exhaustive case split) with symbolic words, period, phase, enable word and 64-bit k, Send/Flush/Tick are compared by SMT with the FIFO specification (frame = two oldest words in order, zeros when missing, flags exact, empty interrupt exactly when a pop empties the queue) and Skip is proved equal to Tick;Skip(k-1) for all 1<=k<=horizon (plus Skip(0)=id, horizon never reaches the emptying frame, ASSERTs unreachable); induction over single steps extends this to all interleavings.',
+    'Assumes the invariant 0<period, timer<period (re-proved after every operation; the period has no reachable writer). Skip lemma: frame count per skip case-split (exhaustive inside the horizon, proved), empty-queue skips bounded to 3 frames; division by the symbolic period is rewritten via the Euclidean division theorem after z3 proves its premise (thorough tier re-proves small fills with symbolic division in cvc5 bv-as-int). Queue built by real Sends from a fresh deque (libstdc++ node-boundary paths trusted). Callbacks are events.',
+    'symbolic execution of LLVM IR (incl. libstdc++ deque) + SMT: FIFO specification and skip lemmas per queue fill', 'DESIGN.md section 2 C16')
